@@ -201,7 +201,7 @@ def run(ctx):
     # ---- random tables, half of them under a random naming
     pool = [["n", 0], ["i", 1], ["i", 2], ["i", 3], ["f", [1, 1]], ["f", [2, 1]], ["f", [5, 2]], ["nan", 1], ["nan", 2], ["nan", 3],
             ["s", "s"], ["s", "t"], ["s", ""], ["d", [730120, 0, 0]], ["d", [730121, 0, 0]], ["inf", 1], ["inf", -1]]
-    two_nans = any(k.get('id') == KNOWN_NAN_LABELS for k in ctx.known)      # reported defect: generated once it is on record
+    two_nans = True      # repaired in /repo (pivot finds the y column by row): several NaN objects among the y values are ordinary cases
     for i in range(300 if ctx.quick else 6000):
         sub = rng.sample(pool, rng.choice([2, 3, 4, 6, len(pool)]))
         n = rng.choice([0, 1, 2, 3, 5, 9, 14, 20])
@@ -238,8 +238,7 @@ def run(ctx):
                         'pivot: a str y value is its own column label, an int its decimal string, any other scalar (None, float, datetime, NaN, inf) labels its column '
                         'as itself (named deviation LabelItself); y values that are equal as keys (1 and 1.0) share one column that shows one member\'s label',
                         'pivot: outside the domain (a table has one column per name): a label equal to the name of an x column, two different y values '
-                        'with one rendering (1 and "1"), a sub-table column named like a key column; several distinct NaN objects among the y values only once '
-                        'the reported defect %s is on record' % KNOWN_NAN_LABELS,
+                        'with one rendering (1 and "1"), a sub-table column named like a key column; several distinct NaN objects among the y values are generated (defect %s repaired in /repo)' % KNOWN_NAN_LABELS,
                         'the unpivot clause is checked on tables with unique (x, y) cells; rows with None z are the ones dropped',
                         'key arguments are spelled as separate names or one list (listby/groupby), one name or a list (pivot/unpivot x); tuples are not a '
                         'spelling of several keys in dictable (a tuple is one composite key) and y / z are always single names',
